@@ -558,6 +558,12 @@ func (x *Exec) Run() {
 		fr.vals[p] = v
 		fr.names[p.Name()] = v
 		x.entry[p.Name()] = v
+		if isContextType(p.Type()) {
+			// package context: "Do not pass a nil Context, even if a function permits it" -- a context.Context
+			// parameter is taken to be non-nil at entry (global assumption, reported with the evidence)
+			st.assume(not(eq(v.(TV).T, "0")))
+			x.warn("context.Context parameters are assumed non-nil at function entry (package context: do not pass a nil Context)")
+		}
 	}
 	if fn.Synthetic == "package initializer" {
 		// verify the first (and only effective) execution: the init guard is still false
@@ -1691,4 +1697,9 @@ func (x *Exec) doReturn(st *State, res []Val) {
 		}
 		x.finishSpecCall(st, cb, r)
 	}
+}
+
+func isContextType(t types.Type) bool {
+	n, ok := t.(*types.Named)
+	return ok && n.Obj().Pkg() != nil && n.Obj().Pkg().Path() == "context" && n.Obj().Name() == "Context"
 }
